@@ -64,7 +64,9 @@ func (p *FrameParser) Parse(buffer []byte) error {
 		err = nil
 	}
 	if err != nil {
-		return fmt.Errorf("parse: %w", err)
+		// a packet that fails to decode (truncated header, corrupt lengths or options) is malformed
+		// traffic, not a failure of the capture: skip it
+		return &common.BadPacketError{Err: fmt.Errorf("parse: %w", err)}
 	}
 	if err := p.checkLayers(); err != nil {
 		return &common.BadPacketError{Err: err}
